@@ -17,12 +17,6 @@ Unit        == R(TRUE, 0, <<>>)
 Put(m, k, v) == [x \in DOMAIN m \cup {k} |-> IF x = k THEN v ELSE m[x]]
 Tl(a) == SubSeq(a, 2, Len(a))
 
-\* op.a = <<value, b1, b2, ...>> with a non-empty key
-Out(s, op) ==
-    CASE op.n = "new" -> { O(S0, Unit) }
-      [] op.n = "put" -> { O([m |-> Put(s.m, Tl(op.a), op.a[1])], Unit) }
-      [] OTHER        -> {}
-
 Prefix(p, k)  == Len(p) <= Len(k) /\ \A i \in 1..Len(p) : p[i] = k[i]
 \* byte-lexicographic order
 LexLess(a, b) == \/ (Len(a) < Len(b) /\ Prefix(a, b))
@@ -34,6 +28,22 @@ Sorted(K) == SortSeq(SetToSeq(K), LexLess)
 LongestPrefix(s, q) ==
     LET C == { k \in DOMAIN s.m : Prefix(k, q) } IN
     IF C = {} THEN <<>> ELSE CHOOSE k \in C : \A x \in C : Len(x) <= Len(k)
+
+\* k1 -1 k2 -1 ... : how the driver flattens a list of keys into a result
+RECURSIVE Flat(_)
+Flat(ks) == IF ks = <<>> THEN <<>> ELSE Head(ks) \o <<-1>> \o Flat(Tail(ks))
+
+\* op.a = <<value, b1, b2, ...>> with a non-empty key for put; the observers called between the puts
+\* (sw = StartsWith, keys, get (+ Contains), lp = LongestPrefix) answer from the current map and change nothing
+Out(s, op) ==
+    CASE op.n = "new" -> { O(S0, Unit) }
+      [] op.n = "put" -> { O([m |-> Put(s.m, Tl(op.a), op.a[1])], Unit) }
+      [] op.n = "sw"  -> IF op.a = <<>> THEN { O(s, R(FALSE, 0, <<>>)) }
+                         ELSE LET ks == Sorted({ k \in DOMAIN s.m : Prefix(op.a, k) }) IN { O(s, R(TRUE, Len(ks), Flat(ks))) }
+      [] op.n = "keys" -> LET ks == Sorted(DOMAIN s.m) IN { O(s, R(TRUE, Len(ks), Flat(ks))) }
+      [] op.n = "get" -> IF op.a \in DOMAIN s.m THEN { O(s, R(TRUE, s.m[op.a], <<1>>)) } ELSE { O(s, R(FALSE, 0, <<0>>)) }
+      [] op.n = "lp"  -> IF op.a = <<>> THEN { O(s, R(FALSE, 0, <<>>)) } ELSE { O(s, R(TRUE, 0, LongestPrefix(s, op.a))) }
+      [] OTHER        -> {}
 
 (***************************************************************************)
 (* Observers (DESIGN 7/C09).  The driver lists its probes with the         *)
